@@ -21,38 +21,54 @@ pub enum Expander {
     XmdSha512,
     XofShake128,
     XofShake256,
+    // further Merkle-Damgard hashes (not part of a BLS12-381 suite; expand_message_xmd is generic in the hash)
+    XmdSha224,
+    XmdSha384,
+    XmdSha512t224,
+    XmdSha512t256,
 }
 
 impl Expander {
+    /// the four expanders used by the hash-to-curve suites
     pub fn all() -> [Expander; 4] {
         [Expander::XmdSha256, Expander::XmdSha512, Expander::XofShake128, Expander::XofShake256]
     }
-    /// (b_in_bytes, s_in_bytes) for the XMD variants
+    /// all expanders of the model; the first four are `all()`
+    pub fn all_extended() -> [Expander; 8] {
+        [Expander::XmdSha256, Expander::XmdSha512, Expander::XofShake128, Expander::XofShake256, Expander::XmdSha224, Expander::XmdSha384, Expander::XmdSha512t224, Expander::XmdSha512t256]
+    }
+    /// (b_in_bytes, s_in_bytes) = (output size, input block size) of the hash, FIPS 180-4, for the XMD variants
     pub fn xmd_params(&self) -> Option<(usize, usize)> {
         match self {
             Expander::XmdSha256 => Some((32, 64)),
             Expander::XmdSha512 => Some((64, 128)),
+            Expander::XmdSha224 => Some((28, 64)),
+            Expander::XmdSha384 => Some((48, 128)),
+            Expander::XmdSha512t224 => Some((28, 128)),
+            Expander::XmdSha512t256 => Some((32, 128)),
             _ => None,
         }
     }
 }
 
+macro_rules! md {
+    ($t:ty, $parts:expr) => {{
+        let mut h = <$t>::new();
+        for p in $parts {
+            Digest::input(&mut h, p);
+        }
+        h.result().to_vec()
+    }};
+}
+
 fn hash(e: Expander, parts: &[&[u8]]) -> Vec<u8> {
     match e {
-        Expander::XmdSha256 => {
-            let mut h = sha2::Sha256::new();
-            for p in parts {
-                Digest::input(&mut h, p);
-            }
-            h.result().to_vec()
-        }
-        Expander::XmdSha512 => {
-            let mut h = sha2::Sha512::new();
-            for p in parts {
-                Digest::input(&mut h, p);
-            }
-            h.result().to_vec()
-        }
+        Expander::XmdSha256 => md!(sha2::Sha256, parts),
+        Expander::XmdSha512 => md!(sha2::Sha512, parts),
+        Expander::XmdSha224 => md!(sha2::Sha224, parts),
+        Expander::XmdSha384 => md!(sha2::Sha384, parts),
+        Expander::XmdSha512t224 => md!(sha2::Sha512Trunc224, parts),
+        Expander::XmdSha512t256 => md!(sha2::Sha512Trunc256, parts),
         _ => unreachable!(),
     }
 }
@@ -110,9 +126,10 @@ pub fn expand_message_xof(e: Expander, msg: &[u8], dst: &[u8], len_in_bytes: usi
 }
 
 pub fn expand_message(e: Expander, msg: &[u8], dst: &[u8], len_in_bytes: usize) -> Option<Vec<u8>> {
-    match e {
-        Expander::XmdSha256 | Expander::XmdSha512 => expand_message_xmd(e, msg, dst, len_in_bytes),
-        _ => expand_message_xof(e, msg, dst, len_in_bytes),
+    if e.xmd_params().is_some() {
+        expand_message_xmd(e, msg, dst, len_in_bytes)
+    } else {
+        expand_message_xof(e, msg, dst, len_in_bytes)
     }
 }
 
